@@ -561,6 +561,24 @@ theorem render_post_target_ro (g : Grid) (hd : Handler) (hdl : Handle) (r : Req)
     · exact ⟨rfl, Or.inl rfl⟩
     · exact ⟨rfl, Or.inl rfl⟩
 
+/-! ### directory contents as stored -/
+
+/-- the grid model's `childHandle` is exactly `_unpack_contents` applied to the stored form of the link -/
+theorem childHandle_eq_unpack (g : Grid) (parent : Handle) (n : Nat) (l : Link) :
+    childHandle g parent l = unpackChild g parent.w (Link.toEntry n l) := by
+  cases hp : parent.w <;> cases hl : l.rw <;> simp [childHandle, unpackChild, Link.toEntry, capHandle, hp, hl]
+
+theorem children_eq_unpack (g : Grid) (h : Handle) :
+    children g h = (unpackContents g h.w (storedEntries g h.addr)).map (·.2) := by
+  simp only [children, unpackContents, storedEntries, List.map_map]
+  apply List.map_congr_left
+  intro e _
+  exact childHandle_eq_unpack g h e.1 e.2
+
+theorem unpackChild_ro (g : Grid) (e : Entry) (hro : e.ro.auth ≠ .write) : (unpackChild g false e).w = false := by
+  simp only [unpackChild, Bool.false_eq_true, if_false, Option.getD_none, capHandle]
+  cases h : e.ro.auth <;> simp_all
+
 /-! ### node cache -/
 
 /-- every cached node is the node its own key's cap string builds -/
